@@ -289,11 +289,8 @@ func boundedRun(input string) string {
 	if !ok {
 		return "BAD"
 	}
-	obs, retry := runBoundedChild(c.fam, c.n, c.d, c.t)
-	if retry {
-		obs, _ = runBoundedChild(c.fam, c.n, c.d, c.t)
-		return obs + ";retried=1"
-	}
+	// replay / witness mode: this run is already alone, a second measurement would tell nothing new
+	obs, _ := runBoundedChild(c.fam, c.n, c.d, c.t)
 	return obs + ";retried=0"
 }
 
